@@ -351,10 +351,11 @@ Lemma xr_iadd_with_data cur a cur' :
 Proof.
   unfold xr_iadd.
   destruct (a_xr cur) as [xc|]; [|discriminate]. destruct (a_xr a) as [xa|]; [|discriminate].
-  destruct (dims_wyx cur && dims_wyx a && has_wl_coord cur && has_wl_coord a
-            && Nat.eqb (length (a_shape cur)) 3 && Nat.eqb (length (a_shape a)) 3); [|discriminate].
-  destruct (negb (opt_eqb zlist_eqb (x_wl xc) (x_wl xa))); [discriminate|].
-  destruct (negb (shape_eqb (a_shape cur) (a_shape a))); [discriminate|].
+  destruct (dims_wyx cur && has_wl_coord cur && Nat.eqb (length (a_shape cur)) 3
+            && Nat.eqb (length (x_dims xa)) (length (a_shape a)) && nodup_nat (x_dims xa)); [|discriminate].
+  destruct (match x_wl xa with Some _ => negb (opt_eqb zlist_eqb (x_wl xc) (x_wl xa)) | None => false end); [discriminate|].
+  destruct (negb (xr_sizes_compat cur a)); [discriminate|].
+  destruct (negb (forallb (fun n => Nat.ltb n 3) (x_dims xa))); [discriminate|].
   destruct (negb (iadd_ok tb (a_dt cur) (a_dt a))); [discriminate|].
   intro H. injection H as <-. eexists. reflexivity.
 Qed.
